@@ -37,7 +37,7 @@ as in `llRun`; the oracle may give the tokens it inserts any id.
 FINDING modelled here (see `Props/C01e.lean`, `recovery_drain_can_succeed`): with `PredRec.drained` inside
 the loop, the `Err` that carries the drained entries is dropped at l.475, `error_entries` is empty at
 l.497, and if no significant token is left the parse returns `Ok(())` at l.513 although an error entry
-WAS recorded. -/
+WAS recorded. Reproduced on the real parser by `harness/examples/c01e_drain_probe.rs`. -/
 namespace ParolModel
 
 /-- Location of an error entry (`SyntaxError::error_location`): the id of the offending token, `none`
